@@ -177,8 +177,39 @@ def r12_10(ctx, rep):
     rep.floor("R12.10", "external call sites in the codec cones", n_calls, 10)
 
 
+def r12_11(ctx, rep):
+    """R12.11: records are encoded into memory.  The codec counts and checksums what it hands to its sink; `ChecksumWriter` digests a whole
+    buffer before a `write` that may be partial, so over a sink that can write short (a file, a socket) the caller's `write_all` re-submits - and
+    re-digests - the rest: the trailer no longer matches the bytes.  Every call of WALRecord::encode in the library passes a Vec<u8>."""
+    rep.rule("R12.11", "WALRecord::encode is only ever instantiated with an in-memory sink (`&mut Vec<u8>` / `Vec<u8>`): the checksum and the byte "
+                       "count are computed over what is handed to the sink, which equals what the sink holds only if the sink never writes short")
+    n = 0
+    for b in ctx.facts.doc["bodies"]:
+        if b["key"].startswith(("testing::", "<testing::")):
+            continue
+        for blk in b["blocks"]:
+            t = blk["term"]
+            if blk.get("cleanup") or t["k"] != "call" or not t.get("callee"):
+                continue
+            c = t["callee"]
+            full = c.get("rfull") or c.get("full") or ""
+            if not re.search(r"WALRecord<T> as codeq::Encode>::encode::<", full):
+                continue
+            n += 1
+            sink = full.split("encode::<", 1)[1].rsplit(">", 1)[0]
+            where = "%s:%s" % (t.get("file", ""), t.get("line", ""))
+            if re.match(r"^(&mut |&)?(std::vec::|alloc::vec::)?Vec<u8>$", sink) or re.match(r"^(&mut )?W$", sink):
+                rep.ok("R12.11", "encode into %s in %s" % (sink, short_key(b["key"]).split("::")[-1]), "", where=where, nontrivial=False)
+            else:
+                rep.violation("R12.11", "%s|encode-into:%s" % (short_key(b["key"]).split("::")[-1], sink[:40]), "WALRecord::encode::<%s>" % sink,
+                              "a record is encoded straight into `%s`: a short write makes the checksum writer digest the re-submitted bytes "
+                              "twice, so the record on disk fails its own checksum although every call reported success" % sink, where=where)
+    rep.floor("R12.11", "WALRecord::encode call sites", n, 1)
+
+
 def run(ctx, rep):
     r12_10(ctx, rep)
+    r12_11(ctx, rep)
     rep.rule("R12.1", "the encoder's variant->tag table is injective over all WALRecord variants and the decoder's tag->variant table is its inverse; unknown tags return Err")
     rep.rule("R12.2", "for every variant the sequence of encoded field types equals the sequence of decoded types, and decoded values land in the same field positions")
     rep.rule("R12.3", "RaftLogState: the version written is the only version accepted; encode order = decode order = all declared fields in declaration order")
